@@ -219,3 +219,62 @@ pub fn read_u32_model(buf: &[u8], idx: usize) -> Result<u32, Error> {
     }
     Ok(u32::from_be_bytes([buf[idx], buf[idx + 1], buf[idx + 2], buf[idx + 3]]))
 }
+
+// ---------------------------------------------------------------------------------------------
+// Models of std functions (environment, not code under test). The real implementations use
+// word-at-a-time scanning with alignment-dependent paths that the symbolic executor explores for
+// every symbolic byte; the models below are the specification of those functions (Unicode table 3-7).
+
+pub fn utf8_ok_slice(v: &[u8]) -> bool {
+    let mut need = 0u8;
+    let mut lo = 0x80u8;
+    let mut hi = 0xBFu8;
+    let mut k = 0;
+    while k < v.len() {
+        let c = v[k];
+        if need == 0 {
+            if c < 0x80 {
+            } else if c >= 0xC2 && c <= 0xDF {
+                need = 1; lo = 0x80; hi = 0xBF;
+            } else if c == 0xE0 {
+                need = 2; lo = 0xA0; hi = 0xBF;
+            } else if (c >= 0xE1 && c <= 0xEC) || c == 0xEE || c == 0xEF {
+                need = 2; lo = 0x80; hi = 0xBF;
+            } else if c == 0xED {
+                need = 2; lo = 0x80; hi = 0x9F;
+            } else if c == 0xF0 {
+                need = 3; lo = 0x90; hi = 0xBF;
+            } else if c >= 0xF1 && c <= 0xF3 {
+                need = 3; lo = 0x80; hi = 0xBF;
+            } else if c == 0xF4 {
+                need = 3; lo = 0x80; hi = 0x8F;
+            } else {
+                return false;
+            }
+        } else {
+            if c < lo || c > hi {
+                return false;
+            }
+            need -= 1; lo = 0x80; hi = 0xBF;
+        }
+        k += 1;
+    }
+    need == 0
+}
+
+/// model of core::str::from_utf8: Ok(the same bytes as str) exactly for well-formed UTF-8
+pub fn from_utf8_model(v: &[u8]) -> Result<&str, core::str::Utf8Error> {
+    if utf8_ok_slice(v) {
+        Ok(unsafe { core::str::from_utf8_unchecked(v) })
+    } else {
+        // the error value is opaque to jsonb (it only maps it to Error::InvalidUtf8)
+        Err(unsafe { core::mem::zeroed() })
+    }
+}
+
+/// model of String::from_utf8_lossy restricted to well-formed input (the only case a valid document
+/// produces); ill-formed input is reported as a harness failure instead of being replaced
+pub fn from_utf8_lossy_model(v: &[u8]) -> std::borrow::Cow<'_, str> {
+    assert!(utf8_ok_slice(v), "verif: from_utf8_lossy called on ill-formed UTF-8");
+    std::borrow::Cow::Borrowed(unsafe { core::str::from_utf8_unchecked(v) })
+}
